@@ -44,13 +44,13 @@ def run(ctx):
             q = " ".join(("(%s)" % t if t.startswith("-") else t) for t in q.split())
             obs = "[" + "; ".join(("(%s)" % t if t.startswith("-") else t) for t in o.split()) + "]%Z"
             qn = q.split()
-            if qn[0] in ("QRaw", "QFloat", "QPtr", "QNested"):
+            if qn[0] in ("QRaw", "QFloat", "QPtr", "QNested", "QNat", "QNatFloat"):
                 q = f"{qn[0]} {qn[1]}%N"
             elif qn[0] == "QPool":
                 q = "QPool [" + "; ".join(w + "%N" for w in qn[1].split(",")) + "]"
             elif qn[0] == "QEq":
                 q = f"QEq {qn[1]}%N {qn[2]}%N"
-            elif qn[0] in ("QInt", "QIntChecked"):
+            elif qn[0] in ("QInt", "QIntChecked", "QNatInt", "QMkInt"):
                 q = f"{qn[0]} {qn[1]}%Z"
             cases.append((q, obs))
         total += len(cases)
